@@ -256,7 +256,22 @@ struct RecHarness : vh::Harness {
       auto w = vh::split_ws(c.ops[i]);
       const std::string &r = res[i];
       if (w[0] == "bigrt") {
-        if (r.compare(0, 3, "ok ") != 0)
+        // total length of the record described by the segments; 2^29 bytes and more must be rejected
+        uint64_t len = 0;
+        {
+          std::string spec = w[1];
+          size_t a = 0;
+          while (a <= spec.size()) {
+            size_t b = spec.find('+', a);
+            if (b == std::string::npos) b = spec.size();
+            std::string seg = spec.substr(a, b - a);
+            len += seg == "m" ? 4 : strtoull(seg.c_str() + 1, nullptr, 10);
+            a = b + 1;
+          }
+        }
+        if (len >= (1ull << 29)) {
+          if (r != "err:check") fail->push_back("class=none prop=C01 a record of " + std::to_string(len) + " bytes was not rejected: " + r.substr(0, 100));
+        } else if (r.compare(0, 3, "ok ") != 0)
           fail->push_back("class=none prop=C01 large record " + w[1] + " does not round-trip: " + r.substr(0, 200));
       } else if (w[0] == "fixedrt") {
         if (r != show(written))
